@@ -99,8 +99,11 @@ def make_residual(arg_order, outs, coords, datas, params, rec, mode):
         body.append("    _g = torch.autograd.grad(%s.sum(), %s, create_graph=True)[0]" % (outs[0], coords[0]))
         body.append("    _REC[-1]['_grad'] = _g")
         terms.append("0.2*_g.sum(dim=-1, keepdim=True)")
+    # two keyword arguments with DIFFERENT defaults that nobody supplies: the residual must see exactly these values
+    body.append("    _REC[-1]['_k1'], _REC[-1]['_k2'] = _k1, _k2")
+    terms.append("0.01*_k1 - 0.003*_k2")
     body.append("    return " + " + ".join(terms))
-    src = "def residual(%s):\n%s\n" % (", ".join(arg_order), "\n".join(body))
+    src = "def residual(%s, _k1=2.0, _k2=5.0):\n%s\n" % (", ".join(arg_order), "\n".join(body))
     env = {"torch": torch, "_REC": rec}
     exec(src, env)
     return env["residual"], src
@@ -285,7 +288,7 @@ def recompute(r, outs, coords, datas, params, kind):
     tot = terms[0]
     for t in terms[1:]:
         tot = tot + t
-    return tot
+    return tot + (0.01 * 2.0 - 0.003 * 5.0)        # the DECLARED defaults of _k1, _k2
 
 
 # ------------------------------------------------------------------------------------------
